@@ -367,12 +367,23 @@ pub fn gen_plan(rng: &mut Prng, property: &str, tier: &Tier) -> EnvPlan {
     let big = property == "C13" && rng.chance(1, 8);
     let nvars = if big { rng.range(7, 10) } else { rng.range(1, 6) };
     // mostly small universes (every pair of states is reachable), sometimes up to 2^8 elements
-    let set_bits = if rng.chance(1, 8) { rng.range(5, 8) } else { rng.range(1, 4) };
+    let set_bits = match rng.below(24) {
+        0..=2 => rng.range(5, 8),
+        // wide universes (C19 only): membership is then checked on the elements the plan mentions
+        // and on boundary values, against a finite / co-finite reference set
+        3 | 4 if property == "C19" => *rng.pick(&[16usize, 31, 32, 33, 63, 64]),
+        _ => rng.range(1, 4),
+    };
     let clients = rng.range(1, tier.max_clients as usize) as u8;
     let nsteps = if big { rng.range(5, 25) } else { rng.range(5, tier.max_steps) };
     let mut names: Vec<String> = fast::NAME_POOL.iter().map(|s| s.to_string()).collect();
     rng.shuffle(&mut names);
     names.truncate(nvars);
+    if nvars >= 2 && rng.chance(1, 12) {
+        let (a, b) = fast::colliding_name_pair();
+        names[0] = a;
+        names[1] = b;
+    }
     if rng.chance(1, 6) {
         // names that need escaping in DOT output / are unusual
         let weird = ["q\"uote", "back\\slash", "new\nline", "", "sp ace", "tab\t", "ü→λ"];
@@ -429,7 +440,7 @@ pub fn gen_plan(rng: &mut Prng, property: &str, tier: &Tier) -> EnvPlan {
     let gen_cfg = {
         let ordinary: Vec<String> = names
             .iter()
-            .filter(|n| fast::NAME_POOL.contains(&n.as_str()))
+            .filter(|n| fast::NAME_POOL.contains(&n.as_str()) || n.starts_with("reqst_x"))
             .cloned()
             .collect();
         let pool = if ordinary.is_empty() { vec![] } else { ordinary };
@@ -508,7 +519,20 @@ pub fn gen_plan(rng: &mut Prng, property: &str, tier: &Tier) -> EnvPlan {
                 let alias = faults.alias && rng.chance(faults.rate.max(10), 100);
                 let a = sel(rng);
                 let b = if alias { a } else { sel(rng) };
-                let e = rng.below(1 << set_bits);
+                let e = if set_bits > 8 {
+                    let ones = mask_bits(usize::MAX, set_bits);
+                    match rng.below(8) {
+                        0 => 0,
+                        1 => ones,
+                        2 => ones - 1,
+                        3 => ones >> 1,
+                        4 => (ones >> 1) + 1,
+                        5 => 1,
+                        _ => mask_bits(rng.next_u64() as usize, set_bits),
+                    }
+                } else {
+                    rng.below(1 << set_bits)
+                };
                 match rng.weighted(&[2, 2, 1, 1, 6, 3, 3, 3, 1, 1, 6, 1]) {
                     0 => Op::SetNew,
                     1 => Op::SetFromElement(e),
@@ -631,6 +655,17 @@ pub fn gen_plan(rng: &mut Prng, property: &str, tier: &Tier) -> EnvPlan {
         for _ in 0..nvars + 2 {
             v.push(next);
             next += *rng.pick(&[1usize, 1, 2, 7, 100, 1 << 20, 1 << 40]);
+        }
+        if nvars >= 2 && rng.chance(1, 2) {
+            // `hash-collision`: the last variable's id is chosen so that the diagram of that variable
+            // and the diagram of a negated earlier variable have the same 64-bit structural hash
+            let j = rng.below(nvars - 1);
+            let m = crate::fx::id_colliding_with_negated(v[j] as u64) as usize;
+            if m > v[nvars - 2] && m < usize::MAX - 4 {
+                v[nvars - 1] = m;
+                v[nvars] = m + 1;
+                v[nvars + 1] = m + 2;
+            }
         }
         v
     } else {
@@ -1011,6 +1046,9 @@ pub struct Exec<'p, W: World> {
     /// live handles keyed by a stable id: 0/1 = the constants, k+2 = created by plan step k
     handles: BTreeMap<usize, Handle<W::S>>,
     cur_step: usize,
+    /// the elements membership is checked for: all b-bit integers while b <= 8, otherwise every
+    /// element the plan mentions plus boundary values
+    set_universe: Vec<usize>,
     log: Vec<LogEntry<W::S>>,
     junk: Vec<Vec<u8>>,
     ext: W::Ext,
@@ -1028,9 +1066,73 @@ pub struct Exec<'p, W: World> {
 pub struct UWorld;
 pub struct NWorld;
 
+/// Reference model of a set of b-bit integers that stays exact for b = 64 as well: a finite set
+/// or the complement of one.
+#[derive(Clone, Debug, Default, PartialEq, Eq)]
+pub struct SetModel {
+    finite: BTreeSet<usize>,
+    co: bool,
+}
+
+impl SetModel {
+    fn of(items: impl IntoIterator<Item = usize>) -> Self {
+        Self {
+            finite: items.into_iter().collect(),
+            co: false,
+        }
+    }
+    fn contains(&self, e: usize) -> bool {
+        self.finite.contains(&e) != self.co
+    }
+    fn insert(&mut self, e: usize) {
+        if self.co {
+            self.finite.remove(&e);
+        } else {
+            self.finite.insert(e);
+        }
+    }
+    fn clear(&mut self) {
+        *self = Self::default();
+    }
+    fn fill(&mut self) {
+        *self = Self {
+            finite: BTreeSet::new(),
+            co: true,
+        };
+    }
+    fn negated(&self) -> Self {
+        Self {
+            finite: self.finite.clone(),
+            co: !self.co,
+        }
+    }
+    fn intersect(&self, o: &Self) -> Self {
+        let (f1, f2) = (&self.finite, &o.finite);
+        match (self.co, o.co) {
+            (false, false) => Self::of(f1.intersection(f2).copied()),
+            (true, false) => Self::of(f2.difference(f1).copied()),
+            (false, true) => Self::of(f1.difference(f2).copied()),
+            (true, true) => Self {
+                finite: f1.union(f2).copied().collect(),
+                co: true,
+            },
+        }
+    }
+    fn union(&self, o: &Self) -> Self {
+        self.negated().intersect(&o.negated()).negated()
+    }
+    fn difference(&self, o: &Self) -> Self {
+        self.intersect(&o.negated())
+    }
+    /// the members among the given universe list
+    fn members(&self, universe: &[usize]) -> BTreeSet<usize> {
+        universe.iter().copied().filter(|e| self.contains(*e)).collect()
+    }
+}
+
 pub struct SetSlot {
     set: BDDSet,
-    model: BTreeSet<usize>,
+    model: SetModel,
 }
 
 pub struct NExt {
@@ -1180,6 +1282,7 @@ impl<'p, W: World> Exec<'p, W> {
             env,
             handles: BTreeMap::new(),
             cur_step: 0,
+            set_universe: set_universe_of(plan),
             log: Vec::new(),
             junk: Vec::new(),
             ext: W::new_ext(),
@@ -1193,6 +1296,12 @@ impl<'p, W: World> Exec<'p, W> {
             faults_fired: 0,
             budget_hit: false,
         };
+        if plan.ids.len() > plan.nvars && plan.nvars >= 2 {
+            let last = plan.ids[plan.nvars - 1] as u64;
+            if plan.ids[..plan.nvars - 1].iter().any(|j| crate::fx::id_colliding_with_negated(*j as u64) == last) {
+                bump(&mut ex.stats, "fault.hash-collision");
+            }
+        }
         let f = ex.env.mk_const(false);
         let t = ex.env.mk_const(true);
         if plan.hold_leaves {
@@ -1929,6 +2038,32 @@ impl<'p, W: World> Exec<'p, W> {
     }
 }
 
+pub fn mask_bits(e: usize, b: usize) -> usize {
+    if b >= usize::BITS as usize {
+        e
+    } else {
+        e & ((1usize << b) - 1)
+    }
+}
+
+fn set_universe_of(plan: &EnvPlan) -> Vec<usize> {
+    let b = plan.set_bits;
+    if b <= 8 {
+        return (0..(1usize << b)).collect();
+    }
+    let ones = mask_bits(usize::MAX, b);
+    let mut v: Vec<usize> = vec![0, 1, 2, 3, ones, ones - 1, ones >> 1, (ones >> 1) + 1, mask_bits(0x5555_5555_5555_5555, b), mask_bits(0xAAAA_AAAA_AAAA_AAAA, b)];
+    for st in &plan.steps {
+        match &st.op {
+            Op::SetFromElement(e) | Op::SetInsert(_, e) | Op::SetContains(_, e) => v.push(mask_bits(*e, b)),
+            _ => {}
+        }
+    }
+    v.sort_unstable();
+    v.dedup();
+    v
+}
+
 fn describe<S: BDDSymbol>(n: &BDD<S>) -> String {
     match n {
         BDD::True => "true leaf".into(),
@@ -1969,7 +2104,7 @@ impl<'p> Exec<'p, UWorld> {
         // read path that does not call `contains`: walk the diagram under var i := e.categorize(i)
         let b = self.plan.set_bits;
         let mut m = BTreeSet::new();
-        for e in 0..(1usize << b) {
+        for e in self.set_universe.iter().copied() {
             let mut node = d;
             loop {
                 match node {
@@ -1997,13 +2132,14 @@ impl<'p> Exec<'p, UWorld> {
                 Err(_) => return Err(viol("C19", "S5", opname, step, format!("set #{k} is left mutably borrowed"))),
             };
             let got = self.set_members(&d).map_err(|e| viol("C19", "S1", opname, step, e))?;
-            if got != s.model {
+            let want = s.model.members(&self.set_universe);
+            if got != want {
                 return Err(viol(
                     "C19",
                     "S1",
                     opname,
                     step,
-                    format!("set #{k} after {opname}: members {:?}, reference set {:?}", got, s.model),
+                    format!("set #{k} ({} bits) after {opname}: members {:x?}, reference set {:x?}", self.plan.set_bits, got, want),
                 ));
             }
         }
@@ -2032,7 +2168,7 @@ impl<'p> Exec<'p, UWorld> {
                     let env = Rc::clone(&self.env);
                     match catch(|| BDDSet::with_env(b, &env)) {
                         Caught::Ok(set) => {
-                            self.ext.insert(new_id, SetSlot { set, model: BTreeSet::new() });
+                            self.ext.insert(new_id, SetSlot { set, model: SetModel::default() });
                         }
                         Caught::Panic(m, l) if c19 => return Err(viol("C19", "S5", &format!("{opname}@{l}"), step_no, format!("{opname} panicked: {m} @ {l}"))),
                         _ => {}
@@ -2042,10 +2178,10 @@ impl<'p> Exec<'p, UWorld> {
             Op::SetFromElement(e) => {
                 if nsets < 4 {
                     let env = Rc::clone(&self.env);
-                    let e = *e % (1usize << b);
+                    let e = mask_bits(*e, b);
                     match catch(|| BDDSet::from_element(e, b, &env)) {
                         Caught::Ok(set) => {
-                            self.ext.insert(new_id, SetSlot { set, model: [e].into_iter().collect() });
+                            self.ext.insert(new_id, SetSlot { set, model: SetModel::of([e]) });
                         }
                         Caught::Panic(m, l) if c19 => return Err(viol("C19", "S5", &format!("{opname}@{l}"), step_no, format!("{opname} panicked: {m} @ {l}"))),
                         _ => {}
@@ -2057,7 +2193,12 @@ impl<'p> Exec<'p, UWorld> {
                     let Caught::Ok(h) = catch(|| self.pick(*sel)) else {
                         return Err(viol("C19", "S5", "mk_const", step_no, "fetching a leaf from the environment panicked".into()));
                     };
-                    if let Ok(model) = self.set_members(&h) {
+                    if b > 8 {
+                        // the members of an arbitrary diagram over a wide universe cannot be listed
+                        return Ok(true);
+                    }
+                    if let Ok(members) = self.set_members(&h) {
+                        let model = SetModel::of(members);
                         let set = BDDSet::from_bdd(&h, b, &self.env);
                         self.ext.insert(new_id, SetSlot { set, model });
                         bump(&mut self.stats, "probe.set.from_bdd");
@@ -2101,7 +2242,7 @@ impl<'p> Exec<'p, UWorld> {
                 let mut aliased = false;
                 let r = match &step.op {
                     Op::SetInsert(_, e) => {
-                        let e = *e % (1usize << b);
+                        let e = mask_bits(*e, b);
                         catch(|| {
                             sets[&k].set.insert(e);
                             None
@@ -2127,8 +2268,8 @@ impl<'p> Exec<'p, UWorld> {
                         None
                     }),
                     Op::SetContains(_, e) => {
-                        let e = *e % (1usize << b);
-                        expect_contains = Some(sets[&k].model.contains(&e));
+                        let e = mask_bits(*e, b);
+                        expect_contains = Some(sets[&k].model.contains(e));
                         catch(|| Some(sets[&k].set.contains(e)))
                     }
                     _ => unreachable!(),
@@ -2140,19 +2281,19 @@ impl<'p> Exec<'p, UWorld> {
                 // reference model
                 match &step.op {
                     Op::SetInsert(_, e) => {
-                        self.ext.get_mut(&k).expect("live set").model.insert(*e % (1usize << b));
+                        self.ext.get_mut(&k).expect("live set").model.insert(mask_bits(*e, b));
                     }
                     Op::SetBin(kind, _, _) => {
                         let other = self.ext[&j].model.clone();
                         let m = &mut self.ext.get_mut(&k).expect("live set").model;
                         *m = match kind {
-                            SetBinKind::Union => m.union(&other).copied().collect(),
-                            SetBinKind::Intersect => m.intersection(&other).copied().collect(),
-                            SetBinKind::Complement => m.difference(&other).copied().collect(),
+                            SetBinKind::Union => m.union(&other),
+                            SetBinKind::Intersect => m.intersect(&other),
+                            SetBinKind::Complement => m.difference(&other),
                         };
                     }
                     Op::SetEmpty(_) => self.ext.get_mut(&k).expect("live set").model.clear(),
-                    Op::SetUniverse(_) => self.ext.get_mut(&k).expect("live set").model = (0..(1usize << b)).collect(),
+                    Op::SetUniverse(_) => self.ext.get_mut(&k).expect("live set").model.fill(),
                     _ => {}
                 }
                 self.nonconst_results += 1;
@@ -2200,7 +2341,7 @@ impl<'p> Exec<'p, UWorld> {
         for (id, sl) in &self.ext {
             parts.push(*id as u64);
             let members = self.set_members(&sl.set.bdd.borrow()).unwrap_or_default();
-            parts.push(members.iter().fold(0u64, |acc, e| acc.rotate_left(7) ^ (*e as u64 + 1)));
+            parts.push(members.iter().fold(0u64, |acc, e| acc.rotate_left(7) ^ (*e as u64).wrapping_add(1)));
         }
         self.trace.push(mix(&parts));
         // the state measure ignores when the state was reached and which ids the sets carry
